@@ -50,8 +50,10 @@ def generate(rng, tier, index):
                 ops.append({'op': 'gb', 'v': rng.choice([0.0, 0.1, 0.2, 0.3, 0.5, round(rng.uniform(0.0, 0.8), 4)])})
             elif r < 0.55:
                 ops.append({'op': 'site', 'v': rng.choice(SITES)})
-            elif r < 0.85:
+            elif r < 0.8:
                 ops.append({'op': 'read', 'v': rng.choice(READS)})
+            elif r < 0.85:
+                ops.append({'op': 'read_array', 'u': [round(rng.random(), 4) for _ in range(rng.randint(2, 7))]})
             elif r < 0.93:
                 ops.append({'op': 'rcrit', 'dG': 10 ** rng.uniform(6, 10)})
             else:
@@ -127,6 +129,28 @@ def run_machine(rec, F, cnt, sig):
             site = op['v']
             nb.setNucleationType(site)
             sig.add(site)
+            continue
+        if o == 'read_array':
+            # description-level functions take the energy ratio as an argument, scalar or array: element i of the array answer must be the
+            # scalar answer for k_i; factors non-negative, volume factor decreasing in k, identity a - 2 k b = 3 c
+            desc = NucleationBarrierParameters(site=site, gamma=0.2, gbEnergy=0.1).description
+            kmax = refs.SITE_KMAX.get(site, 1.0)
+            ks = np.array(sorted(u * kmax * 0.999 for u in op['u']), dtype=float)
+            cnt['reads'] += 1
+            vals = {}
+            for fn in ('volumeFactor', 'gbRemoval', 'areaFactor', 'areaRemoval'):
+                arr = np.asarray(getattr(desc, fn)(ks.copy()), dtype=float)
+                sca = np.array([float(getattr(desc, fn)(float(kv))) for kv in ks])
+                vals[fn] = sca
+                if arr.shape != sca.shape or not np.allclose(arr, sca, rtol=1e-12, atol=1e-14, equal_nan=True):
+                    F.add('C14.array_scalar', f'{site}: {fn}(array k={ks.tolist()}) = {arr.tolist()}, scalar calls give {sca.tolist()}', factor=fn)
+                    break
+            else:
+                if site in refs.SITE_KMAX:
+                    if np.any(np.diff(vals['volumeFactor']) > 1e-12):
+                        F.add('C14.volume_factor_monotone', f'{site}: volume factor does not decrease with k: k={ks.tolist()} -> {vals["volumeFactor"].tolist()}', factor='volumeFactor')
+                    if min(np.min(vals['volumeFactor']), np.min(vals['gbRemoval']), np.min(vals['areaFactor'])) < -1e-12:
+                        F.add('C14.factor_nonneg', f'{site}: negative geometric factor over k={ks.tolist()}', factor='sign')
             continue
         # reads: compare with a fresh twin built from the current values
         fresh = NucleationBarrierParameters(site=site, gamma=gamma, gbEnergy=gb)
